@@ -57,7 +57,22 @@ CPU_PER_CHAR_S = 0.0005
 ENUM_MAX_LEN = 8192
 ENUM_SLICES = 64
 FLIP_ALPHABET = "(){}[]<>%^#!@:,=-+*?|\"0x9.e\\ \n\t\x00é中²١\x0b\x0c'/~`\u00a0\u2028\u3000\u0085\x1c\x1f\u200b\ufeff\r"
-FAULT_KINDS = ("eof", "drop", "flip", "dup", "swap", "torn", "splice", "crlf", "bom", "utf8cut", "insert", "stutter", "tokrepl", "tokdel", "tokdup")
+FAULT_KINDS = ("eof", "drop", "flip", "dup", "swap", "torn", "splice", "crlf", "bom", "utf8cut", "insert", "stutter", "tokrepl", "tokdel", "tokdup", "numtweak")
+
+
+NUM_TWEAKS = ("-1", "-9", "0", "-0", "99999999999", "18446744073709551616", "007", "1e3", "0x", "0x1p3", "-", "1.", ".5", "4294967296")
+
+
+def num_tweak(text: str, a: int, b: int, tw: int) -> tuple[str, str]:
+    """Replace the first digit run inside text[a:b] (or the whole token if it has none)
+    by a boundary spelling."""
+    import re
+
+    m = re.search(r"[0-9]+", text[a:b])
+    rep = NUM_TWEAKS[tw % len(NUM_TWEAKS)]
+    if m is None:
+        return text[:a] + rep + text[b:], f"numtweak[{a},{b}) <- {rep!r} (whole token)"
+    return text[: a + m.start()] + rep + text[a + m.end() :], f"numtweak[{a + m.start()},{a + m.end()}) <- {rep!r}"
 
 
 class StepBudgetExceeded(BaseException):
@@ -257,15 +272,28 @@ def _frames(tb: Any) -> list[tuple[str, str]]:
     return out
 
 
+def _is_core(fn: str) -> bool:
+    return "/xdsl/parser/" in fn or fn.endswith("mlir_lexer.py") or fn.endswith("utils/lexer.py")
+
+
 def _site(tb: Any) -> tuple[str, str]:
     """(innermost xdsl function, innermost parser/lexer function) on a traceback."""
     inner_x = inner_p = "?"
     for fn, qn in _frames(tb):
         if "/xdsl/" in fn:
             inner_x = qn
-            if "/xdsl/parser/" in fn or fn.endswith("mlir_lexer.py") or fn.endswith("utils/lexer.py"):
+            if _is_core(fn):
                 inner_p = qn
     return inner_x, inner_p
+
+
+def _core_raise_site(tb: Any) -> bool:
+    """True iff the innermost xdsl frame of the traceback is in the core parser files."""
+    last = ""
+    for fn, _ in _frames(tb):
+        if "/xdsl/" in fn:
+            last = fn
+    return bool(last) and _is_core(last)
 
 
 class Judge:
@@ -317,6 +345,7 @@ class Judge:
             res["exc"] = type(e).__name__
             res["phase"] = phase
             res["site"] = _site(e.__traceback__)
+            res["core_site"] = _core_raise_site(e.__traceback__)
         finally:
             disarm_watchdog()
             mon.set_events(_TOOL, 0)
@@ -361,7 +390,7 @@ def apply_fault(s: Stream, text: str, toks: list[tuple[int, int, str]], corpus: 
     kind = FAULT_KINDS[s.weighted(enabled)]
     n = len(text)
     desc = kind
-    if kind in ("tokrepl", "tokdel", "tokdup") and not toks:
+    if kind in ("tokrepl", "tokdel", "tokdup", "numtweak") and not toks:
         kind = "flip"
     if kind == "eof":
         k = _pos(s, text, toks, groups=groups)
@@ -414,6 +443,19 @@ def apply_fault(s: Stream, text: str, toks: list[tuple[int, int, str]], corpus: 
         reps = (2, 8, 40, 300, 1200, 5000)[s.weighted((3, 3, 3, 2, 2, 1))]
         text = text[: p + ln] + text[p : p + ln] * reps + text[p + ln :]
         desc = f"stutter[{p},{p + ln})x{reps}"
+    elif kind == "numtweak":
+        # a number inside a token replaced by a boundary spelling (negative, huge, hex, float...)
+        digit_toks = [j for j, (a, b, _) in enumerate(toks) if any(c.isdigit() for c in text[a:b])]
+        if digit_toks and groups:
+            gs = [[j for j in g if any(c.isdigit() for c in text[toks[j][0] : toks[j][1]])] for g in groups]
+            gs = [g for g in gs if g]
+            g = gs[s.choice(len(gs))]
+            a, b, _tk = toks[g[s.choice(len(g))]]
+        elif digit_toks:
+            a, b, _tk = toks[digit_toks[s.choice(len(digit_toks))]]
+        else:
+            a, b, _tk = toks[s.choice(len(toks))]
+        text, desc = num_tweak(text, a, b, s.choice(len(NUM_TWEAKS)))
     elif kind in ("tokrepl", "tokdel", "tokdup"):
         # token-level damage: a grammar token replaced by another corpus token, lost, or doubled
         if groups and s.flag(2, 3):
@@ -491,11 +533,11 @@ def _enum_task(args: tuple[int, int, int, list[tuple[int, int, int]] | None]) ->
         todo = explicit
     else:
         n = len(_CORPUS.w1[ci])
-        todo = [(mode, ci, k) for mode in (1, 2) for k in range(first, n + (1 if mode == 1 else 0), step)]
+        todo = [(mode, ci, k, 0) for mode in (1, 2) for k in range(first, n + (1 if mode == 1 else 0), step)]
     try:
-        for mode, c, k in todo:
+        for item in todo:
             faulthandler.dump_traceback_later(900, exit=True)
-            rec = {"cfg": [[mode, c, k]]}
+            rec = {"cfg": [list(item)]}
             ch = Chooser(record=rec)
             r = eng.run(ch, False)
             merge_stats(st, r.stats)
@@ -512,31 +554,58 @@ def _enum_task(args: tuple[int, int, int, list[tuple[int, int, int]] | None]) ->
     return st, viols, done, maxev
 
 
-def _strata(corpus: Corpus, seed: int) -> list[tuple[int, int, int]]:
+def _strata(corpus: Corpus, seed: int) -> list[tuple[int, ...]]:
     """Stratified single faults for the quick tier: every distinct (kind of the token
     that is cut, how far into the token, kinds of the previous and next token) gets one
     representative (chunk, offset), rotated by the seed; eof@k and drop@k at each."""
-    strata: dict[tuple[Any, ...], list[tuple[int, int]]] = {}
-    for ci, text in enumerate(corpus.w1):
-        if len(text) > ENUM_MAX_LEN:
-            continue
-        prev = "START"
-        toks = corpus.tokens(0, ci)
-        for ti, (a, b, kind) in enumerate(toks):
-            nxt = toks[ti + 1][2] if ti + 1 < len(toks) else "END"
-            ln = b - a
-            for off in sorted({0, 1, 2, 3, ln - 1, ln}):
-                if 0 <= off <= ln:
-                    where: Any = off if off <= 3 else ("end", ln - off)
-                    strata.setdefault((kind, where, prev, nxt), []).append((ci, a + off))
-            prev = kind
-    out: list[tuple[int, int, int]] = []
-    for key in sorted(strata, key=repr):
-        cands = strata[key]
-        ci, k = cands[zlib.crc32(f"{seed}:{key!r}".encode()) % len(cands)]
-        out.append((1, ci, k))
-        out.append((2, ci, k))
-    return out
+    out: list[tuple[int, ...]] = []
+    for wl in (0, 1):
+        strata: dict[tuple[Any, ...], list[tuple[int, int]]] = {}
+        for ci in range(len(corpus.w1)):
+            text = corpus.text(wl, ci)
+            if len(text) > ENUM_MAX_LEN:
+                continue
+            prev = "START"
+            toks = corpus.tokens(wl, ci)
+            for ti, (a, b, kind) in enumerate(toks):
+                nxt = toks[ti + 1][2] if ti + 1 < len(toks) else "END"
+                ln = b - a
+                for off in sorted({0, 1, 2, 3, ln - 1, ln}):
+                    if 0 <= off <= ln:
+                        where: Any = off if off <= 3 else ("end", ln - off)
+                        strata.setdefault((kind, where, prev, nxt), []).append((ci, a + off))
+                prev = kind
+        for key in sorted(strata, key=repr):
+            cands = strata[key]
+            ci, k = cands[zlib.crc32(f"{seed}:{wl}:{key!r}".encode()) % len(cands)]
+            out.append((1, ci, k, wl))
+            out.append((2, ci, k, wl))
+    return out  # type: ignore[return-value]
+
+
+def _num_strata(corpus: Corpus, seed: int) -> list[tuple[int, ...]]:
+    """Stratified numeric tweaks: for every distinct (kind of a token that contains a
+    digit, previous kind, next kind) one representative token, each boundary spelling."""
+    out: list[tuple[int, ...]] = []
+    for wl in (0, 1):
+        strata: dict[tuple[Any, ...], list[tuple[int, int]]] = {}
+        for ci in range(len(corpus.w1)):
+            text = corpus.text(wl, ci)
+            if len(text) > ENUM_MAX_LEN:
+                continue
+            toks = corpus.tokens(wl, ci)
+            prev = "START"
+            for ti, (a, b, kind) in enumerate(toks):
+                nxt = toks[ti + 1][2] if ti + 1 < len(toks) else "END"
+                if any(c.isdigit() for c in text[a:b]):
+                    strata.setdefault((kind, prev, nxt), []).append((ci, ti))
+                prev = kind
+        for key in sorted(strata, key=repr):
+            cands = strata[key]
+            ci, ti = cands[zlib.crc32(f"{seed}:n:{wl}:{key!r}".encode()) % len(cands)]
+            for tw in range(len(NUM_TWEAKS)):
+                out.append((3, ci, ti, tw, wl))
+    return out  # type: ignore[return-value]
 
 
 _ENG: "StreamEngine | None" = None
@@ -582,13 +651,30 @@ class StreamEngine(Engine):
         st = res.stats
         tr: list[str] | None = [] if trace else None
         w3 = False
-        mode = cfg.choice(3, lambda r: 0)  # 0 sampled; 1 / 2 = enumerated eof / drop (records built by extra_phase)
-        if mode:
-            wl = 0
+        mode = cfg.choice(4, lambda r: 0)  # 0 sampled; 1 / 2 / 3 = enumerated eof / drop / numeric tweak (records built by extra_phase)
+        if mode == 3:
             ci = cfg.choice(len(corpus.w1))
-            text = corpus.w1[ci]
-            toks = corpus.tokens(0, ci)
-            k = cfg.choice(len(text) + 1)
+            ti_raw = cfg.choice(1 << 30)
+            tw = cfg.choice(len(NUM_TWEAKS))
+            wl = cfg.choice(2)
+            text = corpus.text(wl, ci)
+            toks = corpus.tokens(wl, ci)
+            ti = ti_raw % max(1, len(toks))
+            if toks:
+                a, b, kd = toks[ti]
+                damaged, d = num_tweak(text, a, b, tw)
+                st["tok." + kd] += 1
+            else:
+                damaged, d = text, "numtweak(no tokens)"
+            st["enum.numtweak"] += 1
+            descs = [d]
+        elif mode:
+            ci = cfg.choice(len(corpus.w1))
+            k_raw = cfg.choice(1 << 30)
+            wl = cfg.choice(2)
+            text = corpus.text(wl, ci)
+            toks = corpus.tokens(wl, ci)
+            k = k_raw % (len(text) + 1)
             if mode == 1:
                 st["enum.eof"] += 1
                 st["tok." + _token_kind_at(toks, k)] += 1
@@ -650,8 +736,9 @@ class StreamEngine(Engine):
         if oc == "escape":
             ix, ip = out["site"]
             sig = f"escape:{out['exc']}:{ix}@{ip}" + (":verify" if out["phase"] == "verify" else "")
-            if wl == 0:
-                viol = Violation("E-internal-error", f"{ix}@{ip}", 0, f"{out['exc']} escaped from {ix} (parser function {ip}, phase {out['phase']}) on a damaged generic-form file", sig)
+            if wl == 0 or out.get("core_site"):
+                where = "a damaged generic-form file" if wl == 0 else "a damaged custom-syntax file (raise site inside the core parser)"
+                viol = Violation("E-internal-error", f"{ix}@{ip}", 0, f"{out['exc']} escaped from {ix} (parser function {ip}, phase {out['phase']}) on {where}", sig)
             else:
                 st[f"w2_escape_site.{out['exc']}:{ix}"] += 1
         elif oc == "step-budget":
@@ -688,7 +775,7 @@ class StreamEngine(Engine):
         n_chunk_tasks = len(tasks)
         strat: list[tuple[int, int, int]] = []
         if tier == "quick":
-            strat = _strata(corpus, seed)
+            strat = _strata(corpus, seed) + _num_strata(corpus, seed)  # type: ignore[operator]
             tasks = [(-1, 0, 0, strat[i : i + 150]) for i in range(0, len(strat), 150)] + tasks
         st: Counter[str] = Counter()
         viols: list[tuple[int, dict[str, Any], Violation]] = []
@@ -740,13 +827,13 @@ class StreamEngine(Engine):
         return (
             "one case = one corpus chunk (generic-form/builtin-only 'W1' or original/all-dialects 'W2') damaged by a fault "
             "sequence, parsed and verified once under the step clock and the CPU watchdog; enumerated tier: every "
-            "(chunk, eof@k) and (chunk, drop@k) of the selected offset slice; sampled tier: 1-3 faults of 15 kinds; "
+            "(chunk, eof@k) and (chunk, drop@k) of the selected offset slice; sampled tier: 1-3 faults of 16 kinds; "
             "non-trivial = the damaged text differs from the stored text; distinct = distinct damaged texts (crc+length)"
         )
 
     def assumptions(self) -> list[str]:
         return [
-            "containment (no internal error) is judged on W1 only; W2 escapes (dialect-specific parsers) are listed by site, not judged",
+            "containment (no internal error) is judged on W1, and on W2 when the raise site lies in the core parser files (xdsl/parser/*, mlir_lexer, lexer); W2 escapes raised inside dialect-specific code are listed by site, not judged",
             "RecursionError / MemoryError are resource exhaustion: counted as inconclusive, never a violation",
             f"prompt = at most {STEP_K}*(len+64) Python function calls (deterministic) and {CPU_BASE_S}s + {CPU_PER_CHAR_S * 1000:.0f}ms/char CPU (watchdog, confirmed twice)",
             "work inside a single regex call is invisible to the step clock; only the CPU watchdog bounds it",
@@ -770,6 +857,7 @@ class StreamEngine(Engine):
                 **{k[6:]: v for k, v in sorted(stats.items()) if k.startswith("fault.")},
                 "enumerated_eof": stats.get("enum.eof", 0),
                 "enumerated_drop": stats.get("enum.drop", 0),
+                "enumerated_numeric_tweak": stats.get("enum.numtweak", 0),
             },
             "outcomes": {k[8:]: v for k, v in sorted(stats.items()) if k.startswith("outcome.")},
             "enumerated_fault_position_token_kind": {k[4:]: v for k, v in sorted(stats.items()) if k.startswith("tok.")},
